@@ -5,7 +5,7 @@ import IrVerif.Lemmas.WriterNLive
 namespace IrVerif.WriterN
 
 def pastCb : Pc → Bool
-  | .notStarted | .cbAcqIn | .cbAcq | .cbBody => false
+  | .notStarted | .tAcq | .cbAcqIn | .cbAcq | .cbBody => false
   | _ => true
 
 def called (s : State) (k : Nat) : Prop := ∃ p, s.tasks[k]? = some p ∧ pastCb p = true
@@ -22,8 +22,9 @@ theorem GInv_init (cfg : Cfg) : GInv (init cfg) := by
   rw [← hp.2] at hc; simp [pastCb] at hc
 
 theorem pastCb_wake (p : Pc) : pastCb (wake p) = pastCb p := by cases p <;> rfl
-theorem pastCb_firstPc (cfg : Cfg) (q : Nat) : pastCb (firstPc cfg q) = false := by
-  unfold firstPc; split <;> rfl
+theorem pastCb_firstPc (cfg : Cfg) (q : Nat) : pastCb (firstPc cfg q) = false := rfl
+theorem pastCb_afterT (cfg : Cfg) (q : Nat) : pastCb (afterT cfg q) = false := by
+  unfold afterT; split <;> rfl
 
 theorem called_set {s s' : State} {i : Nat} {p x : Pc} (hi : s.tasks[i]? = some p)
     (ht : s'.tasks = s.tasks.set i x) (hpx : pastCb x = pastCb p) (k : Nat) :
@@ -112,8 +113,9 @@ theorem GInv_step {cfg : Cfg} (wf : WF cfg) {s s' : State} {l : Label} (hs : SIn
           intro a ha b hb; simp at hb; subst hb; intro e; subst e; exact hni ha⟩
       · rw [called_finish (s := { s with log := s.log ++ [i], cbLock := false,
                                          cbIn := if (cfg.pool (cfg.poolOf i)).innerCb
-                                            then s.cbIn.set (cfg.poolOf i) false else s.cbIn })
-          (SInv_congr hs rfl rfl rfl rfl (by simp only; split <;> simp) (fun _ => rfl) (fun _ => rfl))
+                                            then s.cbIn.set (cfg.poolOf i) false else s.cbIn,
+                                         tLocks := s.tLocks.set (cfg.obj i) false })
+          (SInv_congr hs rfl rfl (by simp) rfl (by simp only; split <;> simp) (fun _ => rfl) (fun _ => rfl))
           false hi rfl k]
         simp only [finishTask_log, List.mem_append, List.mem_cons, List.not_mem_nil, or_false]
         rw [h.mem k]
@@ -137,7 +139,7 @@ theorem GInv_step {cfg : Cfg} (wf : WF cfg) {s s' : State} {l : Label} (hs : SIn
         · subst e; simp [hlt, pastCb]
         · have e3 : ¬ k = i := fun e' => e e'.symm
           simp [List.getElem?_set, e, e3]
-  | tAcq i hi hl => exact frame rfl (called_set hi rfl rfl)
+  | tAcq i hi hl => exact frame rfl (called_set hi rfl (pastCb_afterT _ _))
   | bTry i p hi hp' =>
       rcases budgetTry_cases cfg s i with ⟨_, _, e⟩ | ⟨_, _, e⟩ | ⟨_, _, e⟩ | ⟨_, _, e⟩ <;> rw [e] <;>
         exact frame rfl (called_set hi rfl (by rcases hp' with rfl | rfl <;> rfl))
